@@ -106,6 +106,10 @@ class ULA(Sampler):
         if np.isnan(logpi_eval_star):
             raise NameError('NaN potential func. Consider using smaller scale parameter')
 
+        # A proposal with infinite log-density is not accepted (the chain stays)
+        if np.isinf(logpi_eval_star):
+            return x_t.copy(), target_eval_t, g_target_eval_t.copy(), 0
+
         return x_star, logpi_eval_star, g_logpi_star, 1 # sample always accepted without Metropolis correction
 
 
@@ -186,7 +190,7 @@ class MALA(ULA):
 
         # accept/reject
         log_u = np.log(cuqi.distribution.Uniform(low=0, high=1).sample(rng=self.rng))
-        if (log_u <= log_alpha) and (np.isnan(logpi_eval_star) == False):
+        if (log_u <= log_alpha) and (np.isnan(logpi_eval_star) == False) and (np.isinf(logpi_eval_star) == False):
             return x_star, logpi_eval_star, g_logpi_star, 1
         else:
             return x_t.copy(), target_eval_t, g_target_eval_t.copy(), 0
